@@ -78,3 +78,18 @@ Proof.
       * destruct Hin as [<-|[]]. exists ["conf"; conf_file dsl]; reflexivity.
   - unfold deploy_all in Hin. rewrite Hok in Hin. destruct Hin.
 Qed.
+
+(* ---------------------------------------------------------------- migrated components *)
+Lemma migrated work src p :
+  migrate_entry work src = Some p ->
+  p = (removelast work ++ [basename src])%list /\ noslashb (basename src) = true /\
+  skipseg (basename src) = false /\ dotdot (basename src) = false /\
+  within (removelast work) p /\ length p = S (length (removelast work)) /\
+  (work <> [] -> (p = work <-> basename src = last work "")).
+Proof.
+  unfold migrate_entry. intros H. destruct (copy_link _ _ _ H) as [Hp [Hn [Hs [Hd [Hw Hl]]]]].
+  repeat split; try assumption.
+  - intros E. rewrite Hp in E. rewrite (app_removelast_last "" H0) in E at 2.
+    apply app_inv_head in E. inversion E. reflexivity.
+  - intros E. rewrite Hp, E. symmetry. apply app_removelast_last. exact H0.
+Qed.
